@@ -81,7 +81,7 @@ fn take_while__maximal_prefix() {
         }
         Err((kind, at)) => {
             assert!(k == 0 && is_suffix_at(input, at, 0));
-            kani::cover!(n == 0, "empty input");
+            kani::cover!(n == 3, "a multi-byte character first");
             std::mem::forget(kind);
         }
     }
